@@ -4,8 +4,8 @@
    accepts; and (theorems C16_locals_...) the locals stage pandora itself implements in hcl.go decodeLocals (which block sees
    which local), over a fragment of the expression language.  Statements only; proofs in Proofs/TagTablesProofs.v, Gen/ScenarioTags_bridge.v. *)
 From Coq Require Import List NArith ZArith Bool QArith.
-From PV Require Import Model.ConfigDecode Model.TagTables Model.HclLocals Proofs.ConfigDecodeProofs Proofs.TagTablesProofs
-  Proofs.HclLocalsProofs Gen.ConfigSchemaGen Gen.ScenarioTagsGen Gen.ScenarioTags_bridge.
+From PV Require Import Model.ConfigDecode Model.TagTables Model.HclLocals Model.ScenarioGuard Proofs.ConfigDecodeProofs
+  Proofs.TagTablesProofs Proofs.HclLocalsProofs Proofs.ScenarioGuardProofs Gen.ConfigSchemaGen Gen.ScenarioTagsGen Gen.ScenarioTags_bridge.
 Import ListNotations.
 Local Open Scope N_scope.
 
@@ -138,3 +138,93 @@ Proof.
   apply (C16_locals_reach_any_block [] (nth 0 ex_blocks []) (tl ex_blocks) vars n_common); auto.
   intros m [H|[H|[]]]; subst m; reflexivity.
 Qed.
+
+(* ================================================================================================================
+   null (round 6).  A local set to null EXISTS: below its block -- any number of blocks below -- the name is defined and
+   null, whatever an earlier block said about it (the Terraform idiom for switching a default off). *)
+Theorem C16_null_local_is_defined :
+  forall before b between vars n,
+    decode_locals (before ++ b :: between) = Some vars ->
+    assoc n b = Some (ELit LNull) ->
+    (forall m, In m between -> assoc n m = None) ->
+    assoc n vars = Some LNull.
+Proof. exact null_redefinition_hides. Qed.
+Print Assumptions C16_null_local_is_defined.
+
+(* The attributes of the body (nullable = the Go field can be nil: pointer, map, slice), any number of locals blocks:
+   the code's loop gives every field what the specification gives it. *)
+Theorem C16_locals_fields_fully_evaluated :
+  forall blocks attrs, parse_hcl_fields blocks attrs = spec_fields blocks attrs.
+Proof. exact parse_hcl_fields_is_spec. Qed.
+Print Assumptions C16_locals_fields_fully_evaluated.
+
+(* "optional fields that both syntaxes allow to leave out": in an accepted description an attribute whose expression
+   means null (by the specification: nearest definition above) leaves its field out -- and only a field that can be
+   nil takes it --, and the description reads like the one with those attributes deleted from the text: the same
+   fields present, the same values, the same order. *)
+Theorem C16_null_attribute_leaves_field_out :
+  forall blocks attrs fs,
+    parse_hcl_fields blocks attrs = Some fs ->
+    (forall i a, nth_error attrs i = Some a ->
+       eval_with (lookup_above (rev blocks)) (snd a) = Some LNull -> nth_error fs i = Some None /\ fst a = true) /\
+    parse_hcl_fields blocks (written_attrs (lookup_above (rev blocks)) attrs) = Some (filter (@is_some lval) fs).
+Proof. exact null_attribute_leaves_field_out. Qed.
+Print Assumptions C16_null_attribute_leaves_field_out.
+
+(* non-vacuity: a default of the first block switched off by the second (tag), a local that is only ever null used
+   through coalesce() and directly; a plain field (uri) refuses null *)
+Definition n_tag : str := [116;97;103].
+Definition n_ovr : str := [111;118;114].
+Definition ex_null_blocks : list block :=
+  [ [(n_tag, ELit (LS [100;114;97;102;116])); (n_ovr, ELit LNull)];
+    [(n_tag, ELit LNull)] ].
+Example C16_null_example :
+  parse_hcl_fields ex_null_blocks
+    [(true, ERef n_tag); (false, ECoalesce (ERef n_ovr) (ELit (LS [47]))); (true, ERef n_ovr)]
+    = Some [None; Some (LS [47]); None] /\
+  parse_hcl_fields ex_null_blocks [(false, ERef n_ovr)] = None /\
+  parse_hcl_fields ex_null_blocks [(true, ECoalesce (ERef n_ovr) (ERef n_tag))] = None.
+Proof. vm_compute. repeat split; reflexivity. Qed.
+
+(* ================================================================================================================
+   The entry point the two front-ends share (decode.go DecodeMap; Model/ScenarioGuard.v), for ANY decoder `dv`:
+   ParseAmmoConfig = DecodeMap, ConvertHCLToAmmo = DecodeMap after the tag-driven marshalling. *)
+
+(* The verdict of a front-end -- accepted with which configuration, or refused -- is a function of what the common
+   decoder makes of the tree handed to it; there is no guard that one syntax passes and the other does not. *)
+Theorem C16_frontends_one_verdict :
+  forall dv sch root hv t,
+    dv (marshal_by_tags root hv) = dv t -> read_hcl dv sch root hv = read_yaml dv sch t.
+Proof. exact frontends_one_verdict. Qed.
+Print Assumptions C16_frontends_one_verdict.
+
+(* Neither front-end ever yields a scenario with a negative weight, and a description with one is refused by both. *)
+Theorem C16_accepted_weights_nonneg :
+  forall dv sch t c, decode_map dv sch t = Ok c -> forall z, In z (scenario_weights sch c) -> (0 <= z)%Z.
+Proof. exact accepted_weights_nonneg. Qed.
+Print Assumptions C16_accepted_weights_nonneg.
+
+Theorem C16_negative_weight_refused_by_both :
+  forall dv sch root hv t c z,
+    dv (marshal_by_tags root hv) = dv t -> dv t = Ok c ->
+    In z (scenario_weights sch c) -> (z < 0)%Z ->
+    read_yaml dv sch t = Err EValidate /\ read_hcl dv sch root hv = Err EValidate.
+Proof. exact frontends_refuse_negative_weight. Qed.
+Print Assumptions C16_negative_weight_refused_by_both.
+
+(* non-vacuity on the generated tables: two scenarios, the second with weight -1, typed in YAML and in HCL form: the
+   decoder alone accepts both, both front-ends refuse; with weight 1 both accept *)
+Definition k_scn : str := [115;99;101;110;97;114;105;111;115].
+Definition k_wgt : str := [119;101;105;103;104;116].
+Definition ex_scn_yaml (w : Z) : value :=
+  VMap [(k_scn, VList [VMap [(k_name, VStr [97]); (k_requests, VList [])];
+                        VMap [(k_name, VStr [98]); (k_wgt, VInt w); (k_requests, VList [])]])].
+Definition ex_scn_hcl (w : Z) : list hval :=
+  [ HRs []; HRs []; HRs []; HRs [[HS [97]; HAbsent; HAbsent; HL []]; [HS [98]; HI w; HAbsent; HL []]] ].
+Example C16_example_negative_weight :
+  (match ex_decode (ex_scn_yaml (-1)) with Ok c => scenario_weights gen_ammo_schema c | _ => [] end) = [0; -1]%Z /\
+  read_yaml ex_decode gen_ammo_schema (ex_scn_yaml (-1)) = Err EValidate /\
+  read_hcl ex_decode gen_ammo_schema gen_hcl_root (ex_scn_hcl (-1)) = Err EValidate /\
+  (match read_yaml ex_decode gen_ammo_schema (ex_scn_yaml 1) with Ok _ => true | _ => false end) = true /\
+  norm_res (read_hcl ex_decode gen_ammo_schema gen_hcl_root (ex_scn_hcl 1)) = norm_res (read_yaml ex_decode gen_ammo_schema (ex_scn_yaml 1)).
+Proof. vm_compute. repeat split; reflexivity. Qed.
